@@ -16,18 +16,26 @@
 (*   occupation         : quarters (4 = 1.0, 2 = 0.5)                      *)
 (*   extra              : which set of attributes that _verify does not    *)
 (*                        read was filled in (0 none, 1, 2); -2 = changed  *)
+(*   loose              : 1 = some value is not of its schema type yet      *)
+(*                        (arguments [10], timeout "30", environment       *)
+(*                        {X: 1}); verify() casts: 0                        *)
 (***************************************************************************)
 EXTENDS Integers, Sequences, FiniteSets
 
 CONSTANTS DevWorkerClass,   \* D18: the worker_class alias clears raptor_class
-          DevKwargsNone     \* PythonTask(f, args) ships kwargs = None
+          DevKwargsNone,    \* PythonTask(f, args) ships kwargs = None
+          DevRemembers,     \* verify() skipped while a "verified" mark is set which
+                            \* only attribute assignment clears (not a deviation of
+                            \* the code: shows that the sequence invariants bind)
+          DevByRefMain      \* classes of the application script are shipped by
+                            \* reference (ditto)
 
 (* ======================================================================= *)
 (* task descriptions                                                       *)
 (* ======================================================================= *)
 IntAttrs == {"cpu_processes", "ranks", "cpu_threads", "cores_per_rank",
              "gpu_processes", "gpus_per_rank", "lfs_per_process", "lfs_per_rank",
-             "mem_per_process", "mem_per_rank", "gpu_threads", "extra"}
+             "mem_per_process", "mem_per_rank", "gpu_threads", "extra", "loose"}
 PresAttrs == {"executable", "function", "code", "command", "named_env"}
 StrAttrs == {"mode", "use_mpi",
              "cpu_thread_type", "threading_type", "gpu_process_type", "gpu_type",
@@ -47,6 +55,10 @@ Default == [a \in Attrs |->
                 [] a = "use_mpi"  -> "none"
                 [] a \in IntAttrs -> 0
                 [] OTHER          -> ""]
+
+\* overlay d with the entries of x / the entries of d which differ from b
+Apply(d, x) == [a \in DOMAIN d |-> IF a \in DOMAIN x THEN x[a] ELSE d[a]]
+Diff(d, b)  == [a \in {c \in DOMAIN d : d[c] # b[c]} |-> d[a]]
 
 \* python truth value of an attribute value
 Truthy(a, v) == IF a \in IntAttrs THEN v \notin {0, -1} ELSE v \notin {"", "none"}
@@ -104,10 +116,13 @@ AliasFrom(d, i) == IF i > NAlias THEN d ELSE AliasFrom(AliasStep(d, Alias[i]), i
 MpiStep(d) == IF d.use_mpi # "none" THEN d
               ELSE [d EXCEPT !.use_mpi = IF d.ranks - 1 # 0 THEN "true" ELSE "false"]
 
+\* TypedDict.verify(): every value is cast to its schema type, then _verify
+CastStep(d) == [d EXCEPT !.loose = 0]
+
 Complaint(d) == ModeErr(ModeStep(d))
 Rejects(d)   == Complaint(d) # "ok"
-Verify(d)    == MpiStep(AliasFrom(ModeStep(d), 1))     \* for accepted descriptions
-VerifyRej(d) == ModeStep(d)                            \* what a rejected one is left as
+Verify(d)    == MpiStep(AliasFrom(ModeStep(CastStep(d)), 1))   \* for accepted descriptions
+VerifyRej(d) == ModeStep(CastStep(d))                  \* what a rejected one is left as
 
 (* ---- the property, stated without reference to the clauses above -------- *)
 EffMode(d) == IF T(d, "mode") THEN d.mode ELSE "task.executable"
@@ -128,17 +143,58 @@ AliasKept(d, v, i) == T(d, Alias[i].dep) =>
 AliasKeepsOp(d, v) == \A i \in 1 .. NAlias : AliasKept(d, v, i)
 
 \* attributes verify may touch for input d; everything else must be kept
-Touched(d) == {a \in {"mode"} : ~T(d, "mode")}
+Touched(d) == {a \in {"mode"} : ~T(d, "mode")} \cup {"loose"}
          \cup {a \in {"use_mpi"} : d.use_mpi = "none"}
          \cup UNION {{Alias[i].dep, Alias[i].new} : i \in {j \in 1 .. NAlias : T(d, Alias[j].dep)}}
 KeepsRest(d, v) == \A a \in Attrs \ Touched(d) : v[a] = d[a]
+
+\* a verified description is normalised, whatever its history: nothing
+\* deprecated is left, every value has its type, mode and use_mpi are decided
+\* and the mode's requirements hold
+Normal(d) == /\ ~MustReject(d)
+             /\ \A i \in 1 .. NAlias : ~T(d, Alias[i].dep)
+             /\ d.loose = 0 /\ d.use_mpi # "none" /\ T(d, "mode")
+
+(* ---- one description object used again and again ------------------------ *)
+\* the steps of a sequence: how the application touches the object, and the
+\* content it writes (for "inplace": list.append / dict item of a value held
+\* by the description)
+SeqOps == {"verify", "submit", "attr_dep", "attr_new", "attr_mode",
+           "item_dep", "item_dep2", "item_loose", "item_mode", "item_noexe", "item_cmd",
+           "update_dep", "update_func", "inplace"}
+OpHow(o) == CASE o \in {"verify", "submit"} -> o
+              [] o \in {"attr_dep", "attr_new", "attr_mode"} -> "attr"
+              [] o \in {"update_dep", "update_func"} -> "update"
+              [] o = "inplace" -> "inplace"
+              [] OTHER -> "item"
+OpSet(o) == CASE o = "attr_dep"    -> [cpu_processes |-> 2, use_mpi |-> "none"]
+              [] o = "attr_new"    -> [ranks |-> 2, cores_per_rank |-> 2]
+              [] o = "attr_mode"   -> [mode |-> "task.function"]
+              [] o = "item_dep"    -> [cpu_threads |-> 2, cpu_thread_type |-> "a"]
+              [] o = "item_dep2"   -> [worker_class |-> "a", cpu_processes |-> 1, use_mpi |-> "none"]
+              [] o = "item_loose"  -> [loose |-> 1]
+              [] o = "item_mode"   -> [mode |-> "task.shell"]
+              [] o = "item_noexe"  -> [executable |-> ""]
+              [] o = "item_cmd"    -> [command |-> "x"]
+              [] o = "update_dep"  -> [gpu_processes |-> 1, lfs_per_process |-> 2, scheduler |-> "a",
+                                       use_mpi |-> "none"]
+              [] o = "update_func" -> [mode |-> "task.function", function |-> "x"]
+              [] o = "inplace"     -> [loose |-> 1]
+              [] OTHER             -> <<>>
+IsVerifyOp(o) == o \in {"verify", "submit"}
+
+\* s = [d |-> content, mark |-> verified mark (only with DevRemembers), ok |-> last verify accepted]
+SeqApply(s, o) ==
+  IF IsVerifyOp(o)
+  THEN IF DevRemembers /\ s.mark THEN [s EXCEPT !.ok = TRUE]
+       ELSE IF Rejects(s.d) THEN [d |-> VerifyRej(s.d), mark |-> FALSE, ok |-> FALSE]
+                            ELSE [d |-> Verify(s.d),    mark |-> TRUE,  ok |-> TRUE]
+  ELSE [d |-> Apply(s.d, OpSet(o)), mark |-> s.mark /\ OpHow(o) # "attr", ok |-> s.ok]
 
 \* as_dict() / constructor on the projected attributes: a plain dictionary
 \* holds every key; the constructor overlays the defaults with it
 AsDict(d)   == d
 FromDict(x) == [a \in Attrs |-> IF a \in DOMAIN x THEN x[a] ELSE Default[a]]
-Apply(d, x) == [a \in DOMAIN d |-> IF a \in DOMAIN x THEN x[a] ELSE d[a]]
-Diff(d, b)  == [a \in {c \in DOMAIN d : d[c] # b[c]} |-> d[a]]
 
 (* ======================================================================= *)
 (* pilot descriptions (the attributes PilotDescription._verify reads)      *)
@@ -218,6 +274,18 @@ Encode(c)    == [tag |-> "bson", f |-> c.f, a |-> ArgNorm(c.a),
                        THEN "null" ELSE KwNorm(c.k)]
 Decode(b)    == <<b.f, b.a, b.k>>
 CallRes(t)   == IF t[3] = "null" THEN <<"raise", "TypeError">> ELSE t
+
+\* payloads decoded in ANOTHER interpreter (the raptor worker), which knows the
+\* importable modules but not the application script: a case is [f, w, a],
+\* f the kind of callable, w where its code / class lives
+XKinds      == {"plain", "lambda", "partial", "instance", "method", "closure",
+                "partial_obj", "decorated"}
+XClassKinds == {"instance", "method", "closure", "partial_obj"}     \* involve a class
+XOracle(c)  == <<c.f, c.w, c.a>>
+XEncode(c)  == [tag |-> "bson", f |-> c.f, w |-> c.w, a |-> c.a,
+                byref |-> DevByRefMain /\ c.w = "main" /\ c.f \in XClassKinds]
+\* at = "local": the encoding process;  "remote": a fresh interpreter
+XDecode(b, at) == IF b.byref /\ at = "remote" THEN <<"undecodable">> ELSE <<b.f, b.w, b.a>>
 
 \* sequences of short-lived callables, [api, fs (callable ids), a]: the i-th
 \* callable is created with tag i, encoded and dropped before the next one is
